@@ -11,6 +11,27 @@ for d, _, fs in os.walk('/repo/src/ndn'):
         if f.endswith('.py'):
             p = os.path.join(d, f)
             files[os.path.relpath(p, '/repo/src')] = hashlib.sha256(open(p, 'rb').read()).hexdigest()
+# loop / yield skeleton of every function that has a contract with loop specifications or yield clauses (see pyvc/verify.py)
+import sys, importlib, pkgutil
+sys.path.insert(0, ROOT)
+import contracts
+from pyvc.contracts import REGISTRY
+from pyvc.values import SourceIndex
+from pyvc.verify import loop_skeleton
+for m in pkgutil.iter_modules(contracts.__path__):
+    importlib.import_module('contracts.' + m.name)
+si = SourceIndex()
+skel = {}
+for c in REGISTRY.all:
+    if c.assumed or c.fn is None:
+        continue
+    try:
+        sk = loop_skeleton(si.find(c.fn))
+    except Exception as e:      # noqa
+        print('no skeleton for', c.name, e)
+        continue
+    if sk:
+        skel[c.name] = sk
 commit = subprocess.run('git -C /repo rev-parse HEAD', shell=True, capture_output=True, text=True).stdout.strip()
-json.dump({'commit': commit, 'files': dict(sorted(files.items()))}, open(os.path.join(ROOT, 'repo_baseline.json'), 'w'), indent=1)
-print(f'repo_baseline.json: {len(files)} files at {commit[:10]}')
+json.dump({'commit': commit, 'files': dict(sorted(files.items())), 'loop_skeletons': dict(sorted(skel.items()))}, open(os.path.join(ROOT, 'repo_baseline.json'), 'w'), indent=1)
+print(f'repo_baseline.json: {len(files)} files, {len(skel)} loop skeletons at {commit[:10]}')
